@@ -66,3 +66,105 @@ def c13(tier):
         "an entry counts as released by Dirent.Clunk, Dirent.Remove or by being the receiver of a successful Dirent.Create",
         "entries returned by incomplete walks are placeholders that must never be used or released",
         "every history ends with Session.Stop, so stop strikes at every reachable table state"])
+
+
+# ----------------------------------------------------------------------------- C14
+def _validate_lin(ck, trace_path):
+    """TLC (FidLin.tla): mutual exclusion + linearizability of every recorded concurrent history."""
+    with open(trace_path) as f:
+        lines = f.read().splitlines()
+    hists, cur = [], []
+    for ln in lines:
+        cur.append(ln)
+        if '"e":"reset"' in ln:
+            hists.append(cur)
+            cur = []
+    pending, validated, rounds = hists, 0, 0
+    while pending and rounds < 10:
+        rounds += 1
+        tp = os.path.join(OUT, "fidlin-%d.ndjson" % os.getpid())
+        with open(tp, "w") as f:
+            f.write("\n".join("\n".join(h) for h in pending) + "\n")
+        r = tlc("fid", "FidLin", "FidLin.cfg", workers=1, timeout=900, env_extra={"TRACE": tp})
+        os.unlink(tp)
+        if r.ok and "REJECTED-AT" not in r.out:
+            validated += len(pending)
+            break
+        import re
+        if r.violation == "MutualExclusion":
+            m = None
+            for m in re.finditer(r"/\\ l = (\d+)", r.out):
+                pass
+            pos = int(m.group(1)) - 1 if m else 1
+            sig, what = "overlapping-filesys-calls", "two FileSys calls overlap on one entry"
+        else:
+            m = re.search(r'"REJECTED-AT", (\d+)', r.out)
+            if not m:
+                raise vlib.Inconclusive("FidLin validation failed unexpectedly:\n" + r.out[-3000:])
+            pos = int(m.group(1))
+            sig, what = "not-linearizable", "no sequential order consistent with real time explains the recorded results"
+        # locate the history containing trace position pos
+        n, k = 0, 0
+        for k, h in enumerate(pending):
+            n += len(h)
+            if pos <= n:
+                break
+        evs = [json.loads(x) for x in pending[k]]
+        ck.violation("lin:" + sig, "%s (history %d, event %d of the batch)" % (what, evs[0].get("run", 0), pos),
+                     {"engine": "fidconc", "history": evs})
+        validated += k
+        pending = pending[k + 1:]
+    return validated
+
+
+def c14(tier):
+    ck = Check("C14", tier, "model_checking")
+    ck.assumptions = [
+        "client discipline (the property's parenthesis): a fid that one in-flight request allocates is not named by another in-flight request",
+        "FileSys outcomes are scripted per operation; shared fids 0,1 plus one private allocation target per process",
+        "data-race freedom is judged by the Go race detector on the same workloads (thorough tier only)"]
+    q = tier == "quick"
+    for cfg in ["FidConc_p2.cfg"] + ([] if q else ["FidConc_p3.cfg"]):
+        r = tlc("fid", "FidConc", cfg, workers=16, timeout=1500)
+        if not r.ok:
+            raise vlib.Inconclusive("FidConc violates %s:\n%s" % (r.violation, r.out[-3000:]))
+        ck.add_cov(states=r.distinct, transitions=r.generated)
+        ck.cov.setdefault("tlc_runs", []).append({"cfg": cfg, **r.summary()})
+    ra = tlc("fid", "FidConc", "FidConc_asis.cfg", workers=8, timeout=600)
+    if ra.violation is None:
+        raise vlib.Inconclusive("FidConc as-is: no violation found (vacuity guard failed)")
+    ck.cov["tlc_runs"].append({"cfg": "FidConc_asis.cfg", "expected_violation": ra.violation})
+    tp = os.path.join(OUT, "fidconc-%d.ndjson" % os.getpid())
+    doc = harness(["fidconc", "-n", "400" if q else "6000", "-trace", tp], timeout=1500)
+    if doc.get("extra", {}).get("error"):
+        raise vlib.Inconclusive("fidconc harness: " + doc["extra"]["error"])
+    ck.take(doc)
+    n = _validate_lin(ck, tp)
+    os.unlink(tp)
+    # sequential self-deadlocks / locks left behind are also reached by the LTS replay of the fid engine
+    files = _lts("quick", ck)
+    for p in files:
+        d2 = harness(["fid", "-lts", p, "-random", "100", "-depth", "30"], timeout=1500)
+        d2["violations"] = [v for v in d2.get("violations") or [] if v.get("tag") == "hang"]
+        d2["samples"] = []
+        ck.take(d2, prefix="seq_")
+        os.unlink(p)
+    if not q:
+        tp2 = os.path.join(OUT, "fidconc-race-%d.ndjson" % os.getpid())
+        try:
+            d3 = harness(["fidconc", "-n", "1500", "-trace", tp2], timeout=1500, race=True, ok_codes=(0, 66))
+            races = d3["_stdout"].count("WARNING: DATA RACE")
+            ck.add_cov(race_detector_reports=races)
+            if races:
+                import re
+                first = d3["_stdout"][d3["_stdout"].index("WARNING: DATA RACE"):][:2500]
+                ck.violation("data-race", "the Go race detector reports %d data race(s) in concurrent session use\n%s" % (races, first),
+                             {"engine": "fidconc", "race": first})
+        finally:
+            if os.path.exists(tp2):
+                os.unlink(tp2)
+    ck.add_cov(traces_validated_against_impl=n,
+               rule="seeded random concurrent workloads (2-4 goroutines x 1-3 session calls on shared fids, random yields inside FileSys "
+                    "calls) on the real SFileSys; every recorded history is validated by TLC for mutual exclusion per entry and "
+                    "linearizability (search for linearization points); evaluations = histories, distinct_nontrivial = distinct event sequences")
+    return ck.finish()
